@@ -101,6 +101,7 @@ type qdStore struct{ *BaseStore[*qdRow] }
 
 func qdPlaces() []*qdPlace {
 	return []*qdPlace{
+		{Id: "pl0", Name: "zeta", Shops: nil}, // a linked place without shops that sorts before the others
 		{Id: "pl1", Name: "alpha", Shops: []string{"s1", "s2"}},
 		{Id: "pl2", Name: "beta", Shops: []string{"s2"}},
 		{Id: "pl3", Name: "al", Shops: nil},
@@ -123,11 +124,11 @@ var qdDates = []string{"2019-05-01T00:00:00Z", "2020-01-01T00:00:00Z", "2021-07-
 
 func qdDataset() []*qdRow {
 	return []*qdRow{
-		{Id: "r01", Name: "ann", Alias: qdS("A"), Age: qdI(1), Score: qdF(1.5), Active: qdB(true), Born: qdT(qdDates[0]), Tags: []string{"x"}, Places: []string{"pl1"}, Meta: map[string]interface{}{"k": "v", "n": int64(3), "flag": true}},
-		{Id: "r02", Name: "bob", Alias: nil, Age: qdI(2), Score: qdF(2), Active: qdB(false), Born: qdT(qdDates[1]), Tags: []string{"x", "y"}, Places: []string{"pl1", "pl2"}, Meta: map[string]interface{}{"k": "w", "n": int64(10)}},
+		{Id: "r01", Name: "ann", Alias: qdS("A"), Age: qdI(1), Score: qdF(1.5), Active: qdB(true), Born: qdT(qdDates[0]), Tags: []string{"x"}, Places: []string{"pl1"}, Meta: map[string]interface{}{"k": "v", "n": int64(3), "flag": true, "addr": map[string]interface{}{"city": "oslo"}}},
+		{Id: "r02", Name: "bob", Alias: nil, Age: qdI(2), Score: qdF(2), Active: qdB(false), Born: qdT(qdDates[1]), Tags: []string{"x", "y"}, Places: []string{"pl0", "pl1", "pl2"}, Meta: map[string]interface{}{"k": "w", "n": int64(10), "addr": map[string]interface{}{"city": "rome", "geo": map[string]interface{}{"zone": "a"}}}},
 		{Id: "r03", Name: "an", Alias: qdS("ab"), Age: nil, Score: nil, Active: nil, Born: nil, Tags: nil},
 		{Id: "r04", Name: "Ann", Alias: qdS(""), Age: qdI(10), Score: qdF(-3.25), Active: qdB(true), Born: qdT(qdDates[2]), Tags: []string{"xy", "a", "b"}, Places: []string{"pl3"}, Meta: map[string]interface{}{"flag": false}},
-		{Id: "r05", Name: "b", Alias: qdS("bob"), Age: qdI(-1), Score: qdF(10), Active: nil, Born: qdT(qdDates[1]), Tags: []string{"y"}, Places: []string{"pl2", "pl3"}, Meta: map[string]interface{}{"k": "", "n": int64(-1)}},
+		{Id: "r05", Name: "b", Alias: qdS("bob"), Age: qdI(-1), Score: qdF(10), Active: nil, Born: qdT(qdDates[1]), Tags: []string{"y"}, Places: []string{"pl0", "pl2", "pl3"}, Meta: map[string]interface{}{"k": "", "n": int64(-1), "addr": map[string]interface{}{"city": "", "geo": map[string]interface{}{"zone": "b"}}}},
 		{Id: "r06", Name: "cy", Alias: qdS("x y"), Age: qdI(2), Score: nil, Active: qdB(false), Born: nil, Tags: []string{"x", "xy", "y"}},
 		{Id: "r07", Name: "", Alias: nil, Age: qdI(21), Score: qdF(2.5), Active: qdB(true), Born: qdT(qdDates[0]), Tags: []string{"ab"}},
 		{Id: "r09", Name: "ed", Alias: qdS("e"), Age: qdI(4), Score: qdF(4), Active: qdB(false), Born: qdT("2020-01-01T02:00:00+02:00"), Tags: []string{"x"}}, // the same instant as qdDates[1], another zone
@@ -352,7 +353,7 @@ func qdAtoms(rng *rand.Rand) qdAtom {
 		}
 		switch rng.Intn(4) {
 		case 0:
-			id := []string{"pl1", "pl2", "pl3", "pl9"}[rng.Intn(4)]
+			id := []string{"pl1", "pl2", "pl3", "pl9", "pl0"}[rng.Intn(5)]
 			return qdAtom{fmt.Sprintf("anyOf(places) = %s", qdQ(id)), func(r *qdRow) bool {
 				for _, p := range r.Places {
 					if p == id {
@@ -376,7 +377,7 @@ func qdAtoms(rng *rand.Rand) qdAtom {
 		}
 		all := rng.Intn(2) == 0
 		op := append(append([]string{}, cmpOps...), "contains")[rng.Intn(7)]
-		lit := []string{"alpha", "beta", "al", "a", "gamma"}[rng.Intn(5)]
+		lit := []string{"alpha", "beta", "al", "a", "gamma", "zeta"}[rng.Intn(6)]
 		fn := "anyOf"
 		if all {
 			fn = "allOf"
@@ -445,6 +446,30 @@ func qdAtoms(rng *rand.Rand) qdAtom {
 			return false
 		}}
 	case 20: // map field entries (any-typed): string, integer and boolean values compared with a literal of their kind
+		if rng.Intn(4) == 0 {
+			// entries of nested maps: every further dot goes one map deeper
+			path, key := "meta.addr.city", []string{"addr", "city"}
+			lits := []string{"rome", "oslo", "", "ro"}
+			if rng.Intn(2) == 0 {
+				path, key = "meta.addr.geo.zone", []string{"addr", "geo", "zone"}
+				lits = []string{"a", "b", "c", ""}
+			}
+			op, lit := cmpOps[rng.Intn(6)], lits[rng.Intn(4)]
+			return qdAtom{fmt.Sprintf("%s %s %s", path, op, qdQ(lit)), func(r *qdRow) bool {
+				var cur interface{} = r.Meta
+				for _, k := range key {
+					m, ok := cur.(map[string]interface{})
+					if !ok {
+						return qdStrOp(nil, op, lit)
+					}
+					cur = m[k]
+				}
+				if v, ok := cur.(string); ok {
+					return qdStrOp(&v, op, lit)
+				}
+				return qdStrOp(nil, op, lit)
+			}}
+		}
 		switch rng.Intn(3) {
 		case 0:
 			op, lit := cmpOps[rng.Intn(6)], []string{"v", "w", "", "x"}[rng.Intn(4)]
